@@ -2,7 +2,7 @@
 import ast
 import os
 
-from sa.helpers import (guard_is, the_return, mkflow, spec, code, one, calls, bind_call, param_env,
+from sa.helpers import (validated, guard_is, the_return, mkflow, spec, code, one, calls, bind_call, param_env,
                         fmt, atom_of, unparse, walk_no_nested)
 from sa.index import AnalysisError, ClassInfo, FuncInfo, REPO
 from sa.algebra import RF, dotted
@@ -327,6 +327,10 @@ elif isinstance(V_val, str):
             why.append('a word is not lower-case although the value is lower-cased before the test')
         R.check('6.bool', 'ALG', site, "boolean words: the set with 'true' -> True, the set with 'false' -> False, disjoint, lower-case",
                 not why, key='; '.join(why), detail='; '.join(why), loc=f.loc())
+    with R.guard('3.parser.copy', 'EFF', PP, 'copies'):
+        parser_copies(ix, R)
+    with R.guard('3.chem.gases', 'DOM', FA, 'gas hook'):
+        gas_hook(ix, R)
     site = PP + '::ParameterParser.read'
     with R.guard('6.read', 'DOM', site, 'read'):
         f = ix.func(site)
@@ -334,6 +338,91 @@ elif isinstance(V_val, str):
         need(R, '6.read', 'DOM', site, 'every value of the file passes through transform (ConfigObj.walk)', f,
              ['self._raw_config = configobj.ConfigObj(V_fn)', 'self._raw_config.walk(self.transform)'],
              binding={'V_fn': f.params()[1]})
+
+
+def parser_copies(ix, R):
+    """The factories consume what they are given (determine_klass pops the selector, create_klass pops every key): the
+    parser therefore hands out copies (`self._raw_config.dict()`), never the parsed configuration itself - else the
+    second build from one parser finds the selectors gone and silently builds the default class."""
+    c = ix.cls(PP + '::ParameterParser')
+    n = 0
+    for name, lst in sorted(c.methods.items()):
+        for f in lst:
+            parent = {}
+            for p_ in ast.walk(f.node):
+                for ch in ast.iter_child_nodes(p_):
+                    parent[ch] = p_
+            bad = []
+            for x in ast.walk(f.node):
+                if isinstance(x, ast.Attribute) and x.attr == '_raw_config' and isinstance(x.value, ast.Name) and \
+                        x.value.id == 'self' and isinstance(x.ctx, ast.Load):
+                    n += 1
+                    p_ = parent.get(x)
+                    # allowed: self._raw_config.dict() / .walk(...) and arguments of logging / formatting calls
+                    if isinstance(p_, ast.Attribute) and p_.attr in ('dict', 'walk', 'filename') and \
+                            (p_.attr == 'filename' or isinstance(parent.get(p_), ast.Call)):
+                        continue
+                    q = p_
+                    logged = False
+                    while q is not None and not isinstance(q, ast.stmt):
+                        if isinstance(q, ast.Call) and isinstance(q.func, ast.Attribute) and \
+                                q.func.attr in ('format', 'debug', 'info', 'warning', 'error', 'critical'):
+                            logged = True
+                        q = parent.get(q)
+                    if logged:
+                        continue
+                    if isinstance(p_, ast.Compare) or (isinstance(p_, ast.UnaryOp) and isinstance(p_.op, ast.Not)):
+                        continue        # `if self._raw_config is None`
+                    bad.append(unparse(parent.get(p_, p_) if isinstance(p_, ast.expr) else p_)[:70])
+            if bad:
+                R.fail('3.parser.copy', 'EFF', f.site, 'the parsed configuration is only handed out as a copy (.dict())',
+                       'live configuration used: %s' % bad[0], '%s uses self._raw_config itself (%s): the factories pop the '
+                       'selector and every keyword from the section they are given, so the next build from this parser finds '
+                       'them gone and falls back to the default class' % (f.qualname, '; '.join(bad)), f.loc())
+    if n < 10:
+        R.error('3.parser.copy', 'EFF', PP, 'uses of the parsed configuration are found', 'only %d' % n)
+    else:
+        R.ok('3.parser.copy', 'EFF', PP + '::ParameterParser',
+             'the parsed configuration is only handed out as a copy (.dict()) (%d uses)' % n)
+
+
+def gas_hook(ix, R):
+    """create_chemistry adds the [[gas]] sub-sections to whatever chemistry offers addGas - TaurexChemistry, but also any
+    class enhanced with the makefree mixin or a user class; a test on one concrete class leaves the others without
+    their gases, silently."""
+    site = FA + '::create_chemistry'
+    f = ix.func(site)
+    fl = mkflow(ix, site)
+    ag = [e for e in calls(fl, 'addGas')]
+    stmt = 'gas sub-sections are added to every chemistry object that offers addGas'
+    if len(ag) != 1:
+        R.error('3.chem.gases', 'DOM', site, stmt, '%d addGas calls' % len(ag), loc=f.loc())
+        return
+    e = ag[0]
+    owners = [c for c in ix.all_classes() if 'addGas' in c.methods]
+    why = []
+    for g in e.guards:
+        t = g.text()
+        node = g.node.test if hasattr(g.node, 'test') else None
+        if node is not None and isinstance(node, ast.Call) and unparse(node.func) == 'isinstance' and len(node.args) == 2:
+            names = [x.id for x in ast.walk(node.args[1]) if isinstance(x, ast.Name)]
+            tested = []
+            for nm in names:
+                try:
+                    tested.append(ix.find_class(nm))
+                except AnalysisError:
+                    pass
+            left = [c.name for c in owners if not any(ix.is_subclass(c, t_) for t_ in tested)]
+            if left and g.positive:
+                why.append('gases are added only if %s; %s also define addGas and are left without their gases' % (t, left))
+        elif node is not None and isinstance(node, ast.Call) and unparse(node.func) == 'hasattr' and \
+                len(node.args) == 2 and unparse(node.args[1]) == "'addGas'" and g.positive:
+            continue
+        elif not validated(g):
+            R.error('3.chem.gases', 'DOM', site, stmt, 'addGas under a condition this rule does not know: %s' % t, loc=f.loc())
+            return
+    R.check('3.chem.gases', 'DOM', site, stmt + ' (%s)' % sorted(c.name for c in owners), not why, key='; '.join(why),
+            detail='; '.join(why), loc=f.loc(e.node))
 
 
 def strictness(ix, R, fams, table):
